@@ -5,3 +5,4 @@ import TTLemmas.Simple
 import TTLemmas.Trunc
 import TTLemmas.Matmul
 import TTLemmas.Sweep
+import TTLemmas.ReduceDims
